@@ -5,7 +5,7 @@ stdin JSON:
    "https":     [{"get": str, "put": str, "post": str, "delete": str, "patch": str, "custom": str}...],
    "raws":      [str...],                       # FieldHeader(raw).disambiguated
    "headers":   [[[k, v]...]...],               # google.api_core routing_header.to_routing_header(dict)
-   "splits":    [[sep, s]...], "reprs": [str...]}
+   "splits":    [[sep, s]...], "escapes": [str...]}
 stdout JSON (last line): the same keys with the observations."""
 import json, re, sys
 from google.protobuf import descriptor_pb2
@@ -95,7 +95,7 @@ def main():
            "raws": [wrappers.FieldHeader(r).disambiguated for r in p.get("raws", [])],
            "headers": [routing_header.to_routing_header(dict((k, v) for k, v in d)) for d in p.get("headers", [])],
            "splits": [s.split(sep) for sep, s in p.get("splits", [])],
-           "reprs": [len(repr(s)) for s in p.get("reprs", [])]}
+           "escapes": [re.escape(s) for s in p.get("escapes", [])]}
     print(json.dumps(out))
 
 
